@@ -166,6 +166,8 @@ func checkFunc(res *core.Result, p gengotypes.Package, fn *types.Func, ctx strin
 		return nil, false
 	}
 	res.Inc("resultsof_calls")
+	// snapshot now: a later call may not change what this call returned either (aliasing into shared state)
+	firstAnswer := safeString(results)
 	if int64(steps) > res.Obs["max_resolver_steps_per_call"] {
 		res.Count("max_resolver_steps_per_call", int64(steps)-res.Obs["max_resolver_steps_per_call"])
 	}
@@ -237,8 +239,12 @@ func checkFunc(res *core.Result, p gengotypes.Package, fn *types.Func, ctx strin
 		fail("panic", "second ResultsOf call panicked: %v", pv)
 		return results, false
 	}
-	if a, b := safeString(results), safeString(results2); a != b {
+	if a, b := firstAnswer, safeString(results2); a != b {
 		fail("unstable", "two calls disagree: %s vs %s", a, b)
+		ok = false
+	}
+	if a, b := firstAnswer, safeString(results); a != b {
+		fail("unstable", "the value returned by the first call changed during the second call: %s became %s", a, b)
 		ok = false
 	}
 	return results, ok
